@@ -119,14 +119,21 @@ func newStringType2(args ...px.Value) px.Type {
 			rng = NewIntegerType(min, math.MaxInt64)
 		}
 	case 2:
+		// a bound is an integer or, as the parameters of the size are written, default
 		var min, max int64
 		min, ok = toInt(args[0])
 		if !ok {
-			panic(illegalArgumentType(`String[]`, 0, `Integer`, args[0]))
+			if _, ok = args[0].(*DefaultValue); !ok {
+				panic(illegalArgumentType(`String[]`, 0, `Integer`, args[0]))
+			}
+			min = math.MinInt64
 		}
 		max, ok = toInt(args[1])
 		if !ok {
-			panic(illegalArgumentType(`String[]`, 1, `Integer`, args[1]))
+			if _, ok = args[1].(*DefaultValue); !ok {
+				panic(illegalArgumentType(`String[]`, 1, `Integer`, args[1]))
+			}
+			max = math.MaxInt64
 		}
 		rng = NewIntegerType(min, max)
 	default:
